@@ -357,6 +357,13 @@ func (c *Ctx) ClassifyErrCall(call *ssa.Call) *ErrSite {
 	if a.escapes && worst == ErrConverted {
 		worst, detail = ErrEscapes, "error is stored for later retrieval"
 	}
+	// the body of a range-over-func loop is a synthetic yield function: `return err` inside the loop stores the error in the
+	// enclosing function's results and returns false from the yield; the enclosing return is not followed from here
+	if worst == ErrConverted {
+		if fn := call.Parent(); fn != nil && fn.Synthetic == "range-over-func yield" {
+			worst, detail = ErrEscapes, "error leaves a range-over-func loop body through the enclosing function's results"
+		}
+	}
 	site.Kind, site.Detail = worst, detail
 	return site
 }
